@@ -123,11 +123,57 @@ def run(chk: Check) -> None:
                 e = r.exc
                 d = dotted(e.func if isinstance(e, ast.Call) else e) if e is not None else None
                 ok = d is not None and d[-1] == "TypeNameError" and isinstance(e, ast.Call) and \
-                    len(e.args) == 1 and attr_path(e.args[0]) == (tn,)
+                    len(e.args) == 1 and not e.keywords and attr_path(e.args[0]) == (tn,)
                 chk.ob("R15.2", "%s:raise(%s)" % (g.qualname, d[-1] if d else "bare"), ok, g.loc(r),
                        "%s raises %s: every rejection must be TypeNameError(type_name)"
                        % (g.qualname, unparse(r)[:50]), 1)
     chk.floor("R15.2", "raise statements in the parser", n_raise, 6)
+    # acceptance depends on the token sequence alone: every test in the parser is about how many
+    # tokens there are or whether a token is one of the three delimiters — never about *which*
+    # name a token is, and never about anything outside the function
+    chk.rule("R15.7", "every test of the parser is structural: lengths, delimiter comparisons, the "
+                      "bracket stack; no lookup of names, no outside state")
+    DEL = {"<", ">", ","}
+    for g in [f] + list(inner.values()):
+        local = set(g.param_names()) | {n_.id for n_ in walk_no_nested(g.node)
+                                        if isinstance(n_, ast.Name) and isinstance(n_.ctx, ast.Store)}
+        local |= set(f.param_names()) | {n_.id for n_ in walk_no_nested(f.node)
+                                         if isinstance(n_, ast.Name) and isinstance(n_.ctx, ast.Store)}
+        for t_ in walk_no_nested(g.node):
+            test = t_.test if isinstance(t_, (ast.If, ast.While, ast.IfExp)) else None
+            if test is None:
+                continue
+            bad = None
+            for x in ast.walk(test):
+                if isinstance(x, ast.Call) and not (isinstance(x.func, ast.Name) and x.func.id in ("len", "isinstance")):
+                    bad = "calls %s" % unparse(x.func)
+                elif isinstance(x, ast.Name) and isinstance(x.ctx, ast.Load) and x.id not in local \
+                        and x.id not in ("len", "isinstance", "str", "True", "False", "None"):
+                    bad = "reads %s, which is not a local of the parser" % x.id
+                elif isinstance(x, ast.Constant) and isinstance(x.value, str) and x.value not in DEL:
+                    bad = "compares with the name %r" % x.value
+            chk.ob("R15.7", "%s:structural-test(%s)" % (g.qualname, "".join(
+                ch for ch in unparse(test) if ch.isalnum())[:30]), bad is None, g.loc(t_),
+                "%s decides on '%s', which %s: whether a type name is accepted must depend only on "
+                "its bracket/comma structure" % (g.qualname, unparse(test)[:60], bad), 1)
+    # "any length and nesting depth": nothing in the parser compares against a size limit, and the
+    # recursion carries nothing but tokens and the tree built so far
+    chk.rule("R15.6", "the parser has no size or depth limit: no comparison against a constant other "
+                      "than 0/1, no counter parameter in the recursion")
+    for g in [f] + list(inner.values()):
+        for cmp_ in walk_no_nested(g.node):
+            if not isinstance(cmp_, ast.Compare):
+                continue
+            for side in [cmp_.left] + list(cmp_.comparators):
+                if isinstance(side, ast.Constant) and isinstance(side.value, int) and \
+                        not isinstance(side.value, bool) and abs(side.value) > 1:
+                    chk.ob("R15.6", "%s:no-limit(%s)" % (g.qualname, side.value), False, g.loc(cmp_),
+                           "%s compares against the limit %s (%s): type names of any length and nesting "
+                           "depth must be accepted" % (g.qualname, side.value, unparse(cmp_)[:50]), 1)
+        extra = g.param_names()[2:]
+        chk.ob("R15.6", "%s:parameters" % g.qualname, not extra or g is f, g.loc(),
+               "%s takes %s besides the tokens and the tree: acceptance must depend on the token "
+               "sequence alone" % (g.qualname, extra), 1)
     # the root destructuring
     roots = [n for n in walk_no_nested(f.node) if isinstance(n, ast.Assign)
              and isinstance(n.targets[0], (ast.Tuple, ast.List))]
@@ -152,6 +198,25 @@ def run(chk: Check) -> None:
            and "external.ValueError" not in mro, tne.loc(),
            "TypeNameError must not derive from ValueError (the root handler would intercept inner "
            "errors) - MRO %s" % mro, 1)
+    # the exception's own constructor must not be able to fail on the (arbitrary) name it reports:
+    # the name may only appear as a %-argument of a literal format, never inside the format
+    for c_ in [tne] + [b for b in tne.mro() if hasattr(b, "methods")]:
+        init_ = c_.methods.get("__init__") if hasattr(c_, "methods") else None
+        if init_ is None:
+            continue
+        chk.saw(init_)
+        for bo in walk_no_nested(init_.node):
+            if isinstance(bo, ast.BinOp) and isinstance(bo.op, ast.Mod):
+                lit = isinstance(bo.left, ast.Constant) and isinstance(bo.left.value, str)
+                chk.ob("R15.2", "%s:format-is-literal" % init_.qualname, lit, init_.loc(bo),
+                       "%s formats its message with a computed format string (%s): a type name "
+                       "containing '%%' makes the constructor raise ValueError/TypeError instead of the "
+                       "TypeNameError being reported" % (init_.qualname, unparse(bo.left)[:50]), 2)
+            if isinstance(bo, ast.Call) and isinstance(bo.func, ast.Attribute) and bo.func.attr == "format" \
+                    and not isinstance(bo.func.value, ast.Constant):
+                chk.ob("R15.2", "%s:format-is-literal" % init_.qualname, False, init_.loc(bo),
+                       "%s formats its message with a computed format string" % init_.qualname, 2)
+        break
     chk.ob("R15.2", "TypeNameError:is-EncodeError-CodecError", "EncodeError" in mro and "CodecError" in mro,
            tne.loc(), "TypeNameError must stay an EncodeError/CodecError - MRO %s" % mro, 1)
     for nm in ("encode", "decode"):
